@@ -123,6 +123,16 @@ func TestVerifC08Histories(t *testing.T) {
 				mid.I = idx(t)
 				step(act{Op: rapid.SampledFrom([]string{"rec-def", "rec-off"}).Draw(t, "xrdctrl"), Mid: &mid, MidK: rapid.IntRange(0, 6).Draw(t, "midk")})
 			},
+			// Usage selectors: a user clears the recorded reference(s) (forcing re-selection), possibly asking for a
+			// label the using resource does not carry yet; someone gives the using resource that label
+			"unresolve-usage": func(t *rapid.T) {
+				step(act{Op: "unresolve-usage", I: idx(t), Obj: rapid.SampledFrom([]string{"by", "by", "of", "both"}).Draw(t, "side"), J: rapid.IntRange(0, 1).Draw(t, "mismatch")})
+			},
+			"label-using": func(t *rapid.T) {
+				if rapid.Bool().Draw(t, "really") {
+					step(act{Op: "label-using", I: idx(t)})
+				}
+			},
 			"deactivate-rev": func(t *rapid.T) { step(act{Op: "deactivate-rev"}) },
 			"rec-rev2":       func(t *rapid.T) { step(drawFault(t, act{Op: "rec-rev"})) },
 			"lock-churn":     func(t *rapid.T) { step(act{Op: "lock-churn", I: rapid.IntRange(0, 2).Draw(t, "n")}) },
@@ -145,6 +155,18 @@ func TestVerifC08Histories(t *testing.T) {
 		}
 		if w.inactiveInLockDeletes > 0 {
 			rec.Label("revision-deleted-while-inactive-and-still-in-lock")
+		}
+		if w.usageUnresolvedAtDelete > 0 {
+			rec.Label("usage-deleted-with-unresolved-selector")
+		}
+		if w.usageDelRecUnresolved > 0 {
+			rec.Label("usage-deletion-reconcile-unresolved-selector-using-alive")
+		}
+		if w.usageDelRecUnresolvedFault > 0 {
+			rec.Label("usage-deletion-reconcile-unresolved-selector-using-alive+fault")
+		}
+		if w.usageLabelMismatch > 0 {
+			rec.Label("usage-deletion-reconcile-selector-label-mismatch")
 		}
 		if w.midRan > 0 {
 			rec.Label("interloper-ran")
@@ -641,6 +663,28 @@ func TestVerifC08MonitorsFire(t *testing.T) {
 	expect("usage finalizer with a live using resource", "(f)", usU, func(w *world) {
 		w.do(act{Op: "del-composed", Obj: "usage"})
 		strip(w, actorUsage, "composed:0:usage", finUsage)
+	})
+	expect("usage finalizer with an unresolved selector that still selects a live resource", "(f)", usU, func(w *world) {
+		w.do(act{Op: "unresolve-usage", Obj: "by"})
+		w.do(act{Op: "del-composed", Obj: "usage"})
+		strip(w, actorUsage, "composed:0:usage", finUsage)
+	})
+	expect("usage finalizer with a cleared reference and a selector that selects nothing yet", "(f)", usU, func(w *world) {
+		w.do(act{Op: "unresolve-usage", Obj: "by", J: 1})
+		w.do(act{Op: "del-composed", Obj: "usage"})
+		strip(w, actorUsage, "composed:0:usage", finUsage)
+	})
+	expect("in-use label lifted while the using resource lives", "(f2)", usU, func(w *world) {
+		w.do(act{Op: "del-composed", Obj: "usage"})
+		for _, k := range w.resolve("composed:0:r0") {
+			u := verifsim.U(w.sim.Get(k))
+			l := u.GetLabels()
+			delete(l, labelInUse)
+			u.SetLabels(l)
+			if err := w.sim.Client(actorUsage).Update(ctx, u); err != nil {
+				t.Fatal(err)
+			}
+		}
 	})
 	// and a third party doing the same is not a finding
 	w := newWorld(base, nil)
